@@ -32,7 +32,7 @@ type MatrixCase struct {
 	Writable        bool        `json:"writable"`
 	Retry           int         `json:"retry"`
 	Chunks          []ChunkSpec `json:"chunks"`
-	Pre             []string    `json:"pre"` // per chunk: present | missing | other | corrupt
+	Pre             []string    `json:"pre"` // per chunk: present | missing | other | corrupt | trunc | garbage | raw | empty (damaged upstream object, see damagedObject)
 	Ops             []MOp       `json:"ops"`
 }
 
@@ -178,6 +178,40 @@ func bodyClasses(o *hx.Outcome, op string, n int64, serverUnc bool, extra ...str
 	}
 }
 
+// damagedObject returns the bytes of a damaged upstream object of the given kind for a chunk with
+// plain content data, and whether the object is UNDECODABLE in the upstream store's format (a hop
+// that has to turn it into plain data cannot) as opposed to merely holding wrong content.
+//
+//	trunc    the first half of the object (a cut zstd frame / cut plain data)
+//	garbage  bytes that are not a zstd frame
+//	raw      the chunk in the other format: plain bytes in a compressed slot / a zstd frame in a plain slot
+//	empty    an empty file
+//
+// An uncompressed store has nothing to decode: every damage there is wrong content. In a
+// compressed store the object is undecodable unless the independent decoder accepts it (then it
+// is wrong content); the empty file is not a frame.
+func damagedObject(kind string, data []byte, upstreamUnc bool) (obj []byte, undecodable bool) {
+	good := wire(data, upstreamUnc)
+	switch kind {
+	case "trunc":
+		obj = good[:len(good)/2]
+	case "garbage":
+		obj = append([]byte("this is not a zstd frame: "), data[:min(len(data), 64)]...)
+	case "raw":
+		obj = wire(data, !upstreamUnc)
+	default: // empty
+		obj = []byte{}
+	}
+	if upstreamUnc {
+		return obj, false
+	}
+	if len(obj) == 0 {
+		return obj, true
+	}
+	_, err := zDecompress(obj)
+	return obj, err != nil
+}
+
 func genMatrix(t *rapid.T) MatrixCase {
 	if rapid.IntRange(0, 39).Draw(t, "big") == 0 {
 		return genMatrixBig(t)
@@ -197,7 +231,8 @@ func genMatrix(t *rapid.T) MatrixCase {
 	n := rapid.IntRange(1, 3).Draw(t, "nchunks")
 	for i := 0; i < n; i++ {
 		c.Chunks = append(c.Chunks, genChunkSpec(t, "c"))
-		c.Pre = append(c.Pre, rapid.SampledFrom([]string{"present", "present", "present", "missing", "missing", "other", "corrupt"}).Draw(t, "pre"))
+		c.Pre = append(c.Pre, rapid.SampledFrom([]string{"present", "present", "present", "present", "missing", "missing", "other", "corrupt",
+			"trunc", "garbage", "raw", "empty"}).Draw(t, "pre"))
 	}
 	nops := rapid.IntRange(1, 8).Draw(t, "nops")
 	for i := 0; i < nops; i++ {
@@ -245,11 +280,20 @@ func runMatrix(c MatrixCase) (o hx.Outcome) {
 		case "corrupt":
 			plantChunk(dir, ids[i], bad[i], c.UpstreamUnc)
 			state[i] = "corrupt"
+		case "trunc", "garbage", "raw", "empty":
+			obj, undec := damagedObject(pre, data[i], c.UpstreamUnc)
+			plantRaw(dir, ids[i], obj, c.UpstreamUnc)
+			state[i] = "corrupt"
+			if undec {
+				state[i] = "undecodable"
+			}
+			o.Class("matrix:damage:" + pre)
+			pre = state[i]
 		default:
 			pre = "missing"
 			state[i] = "missing"
 		}
-		o.Class("matrix:state:" + map[string]string{"present": "present", "missing": "missing", "corrupt": "corrupt", "other": "other-format"}[pre])
+		o.Class("matrix:state:" + map[string]string{"present": "present", "missing": "missing", "corrupt": "corrupt", "other": "other-format", "undecodable": "undecodable"}[pre])
 	}
 
 	// ---- the three hops
@@ -293,8 +337,14 @@ func runMatrix(c MatrixCase) (o hx.Outcome) {
 			if putOK[i] {
 				o.Class("matrix:read-after-put")
 			}
-			if gl, code := meter.lastGet(); agree && st == "present" && code == http.StatusOK {
+			gl, code := meter.lastGet()
+			if agree && st == "present" && code == http.StatusOK {
 				bodyClasses(&o, "get", gl, c.ServerUnc)
+			}
+			serverDecodes := c.ServerUnc != c.UpstreamUnc // the server has to turn the upstream object into plain data
+			if st == "undecodable" && serverDecodes && code == http.StatusOK {
+				// the server could not have produced the chunk: its own failure is a server error, not a delivery
+				fail("C14:get:server-failure-as-200", opi, op, "the upstream object cannot be decoded and the server has to convert it, but it answered 200 with a body of %d bytes", gl)
 			}
 			if !agree {
 				// only an error or the correct data are acceptable
@@ -319,6 +369,22 @@ func runMatrix(c MatrixCase) (o hx.Outcome) {
 			case "missing":
 				if res != resMissing {
 					fail(sig("get", "missing", res), opi, op, "chunk absent upstream, want ChunkMissing, got %s %s", res, clip(detail))
+				}
+			case "undecodable":
+				how := map[bool]string{true: "server-converts", false: "pass-through"}[serverDecodes]
+				o.Class("matrix:get:" + how + ":upstream-undecodable:" + map[bool]string{true: "unverified-read", false: "verified-read"}[c.UpstreamSkip])
+				o.Class("matrix:get:upstream-undecodable:" + map[bool]string{true: "client-skips", false: "client-verifies"}[c.ClientSkip])
+				if !serverDecodes && c.UpstreamSkip && c.ClientSkip {
+					// bytes passed through by hops that were all told not to look at them: nobody's to catch
+					o.Class("matrix:undecodable-unverified")
+					break
+				}
+				// the server had to decode (and could not), or a verifying hop exists: a failure
+				switch res {
+				case resMissing:
+					fail(sig("get", "failure", resMissing), opi, op, "the upstream object cannot be decoded (server converts: %v); reported as missing: %s", serverDecodes, clip(detail))
+				case resOK, resWrong:
+					fail(sig("get", "failure", resOK), opi, op, "the upstream object cannot be decoded (server converts: %v); GetChunk returned without error (%s)", serverDecodes, clip(detail))
 				}
 			case "corrupt":
 				if c.UpstreamSkip && c.ClientSkip {
@@ -513,4 +579,34 @@ func TestFixedLarge(t *testing.T) {
 		}
 	}
 	hx.Note("fixed_large_cases", count)
+}
+
+// TestFixedDamaged: every (upstream format, server format, damage kind) x upstream read verified
+// or not x client verifying or not, client in the server's format: get, has, get on the damaged
+// object, for a small and a mid-sized chunk. One shard only.
+func TestFixedDamaged(t *testing.T) {
+	if hx.Shard() != 2%hx.Shards() {
+		t.Skip()
+	}
+	count := 0
+	for _, upUnc := range []bool{false, true} {
+		for _, srvUnc := range []bool{false, true} {
+			for _, kind := range []string{"trunc", "garbage", "raw", "empty"} {
+				for _, upSkip := range []bool{false, true} {
+					for _, clSkip := range []bool{false, true} {
+						for _, cs := range []ChunkSpec{{Kind: "text", Len: 9000, Seed: 3}, {Kind: "rand", Len: 1, Seed: 4}} {
+							mc := MatrixCase{ClientUnc: srvUnc, ServerUnc: srvUnc, UpstreamUnc: upUnc, ClientSkip: clSkip, UpstreamSkip: upSkip,
+								ServerSkipWrite: true, Retry: count % 3, Chunks: []ChunkSpec{cs}, Pre: []string{kind},
+								Ops: []MOp{{Op: "get"}, {Op: "has"}, {Op: "get"}}}
+							count++
+							if !hx.Case(t, spec, Case{Mode: "matrix", Matrix: &mc}) {
+								return
+							}
+						}
+					}
+				}
+			}
+		}
+	}
+	hx.Note("fixed_damaged_cases", count)
 }
